@@ -342,6 +342,72 @@ fn main() {
             }
         }
     }
+    // pairs of capability sets that are NOT mirror images: each side's ADD-PATH mode 0-3 (1 = can receive, 2 = can send), each
+    // side's four-octet-AS and extended-message support.  Path ids travel only when the sender may send AND the receiver may
+    // receive; whatever was negotiated, the peer's codec (negotiated from the opposite side) must decode the same routes.
+    for family in [Family::IPV4, Family::IPV6, Family::IPV4_VPN, Family::L2VPN_EVPN] {
+        let base: Vec<packet::Nlri> = samples::nlri_samples(family).into_iter().take(4).collect();
+        for lmode in 0u8..4 {
+            for rmode in 0u8..4 {
+                for (las4, ras4) in [(true, true), (true, false), (false, true)] {
+                    for (lext, rext) in [(false, false), (true, false), (true, true)] {
+                        cases += 1;
+                        let caps = |mode: u8, as4: bool, ext: bool, asn: u32| {
+                            let mut v = vec![bgp::Capability::MultiProtocol(family), bgp::Capability::MultiProtocol(Family::IPV4)];
+                            if mode > 0 {
+                                v.push(bgp::Capability::AddPath(vec![(family, mode)]));
+                            }
+                            if ext {
+                                v.push(bgp::Capability::ExtendedMessage);
+                            }
+                            if as4 {
+                                v.push(bgp::Capability::FourOctetAsNumber(asn));
+                            }
+                            v
+                        };
+                        let local = caps(lmode, las4, lext, samples::LOCAL_AS);
+                        let remote = caps(rmode, ras4, rext, samples::REMOTE_AS);
+                        let mut tx = bgp::PeerCodec::negotiate(&local, &remote);
+                        let mut rx = bgp::PeerCodec::negotiate(&remote, &local);
+                        let ids = lmode & 2 != 0 && rmode & 1 != 0;
+                        let case = json!({"family": samples::family_name(family), "pair": "asymmetric", "addpath_local": lmode, "addpath_remote": rmode,
+                                          "as4": [las4, ras4], "ext": [lext, rext]});
+                        for withdraw in [false, true] {
+                            let entries: Vec<PathNlri> = base.iter().enumerate().map(|(i, n)| PathNlri { path_id: if ids { i as u32 + 7 } else { 0 }, nlri: n.clone() }).collect();
+                            let msg = if withdraw {
+                                bgp::Message::Update(bgp::Update::Unreach { family, entries: entries.clone() })
+                            } else {
+                                bgp::Message::Update(bgp::Update::Reach { family, entries: entries.clone(), nexthop: samples::nexthop_for(family), attr: Arc::new(samples::base_attrs()) })
+                            };
+                            let mut buf = BytesMut::new();
+                            match catch_unwind(AssertUnwindSafe(|| tx.encode_to(&msg, &mut buf))) {
+                                Err(_) => {
+                                    report(&mut out, "encoder_panic", "the encoder panics".into(), case.clone());
+                                    continue;
+                                }
+                                Ok(Err(_)) => {
+                                    report(&mut out, "encode_error", "encode_to fails for four entries".into(), case.clone());
+                                    continue;
+                                }
+                                Ok(Ok(_)) => {}
+                            }
+                            match decode_all(&mut rx, &buf, 4096) {
+                                Err(m) => report(&mut out, "frame", m, case.clone()),
+                                Ok(d) => {
+                                    frames_total += d.frames.len() as u64;
+                                    let want: Vec<(u32, packet::Nlri)> = entries.iter().map(|e| (e.path_id, e.nlri.clone())).collect();
+                                    let got = if withdraw { &d.withdrawn } else { &d.entries };
+                                    if *got != want {
+                                        report(&mut out, "entries", format!("the peer decodes {} entries for {} encoded, or other ones (path ids in force: {})", got.len(), want.len(), ids), case.clone());
+                                    }
+                                }
+                            }
+                        }
+                    }
+                }
+            }
+        }
+    }
     // OPEN: capability lists around and beyond the one-octet optional-parameter length
     for nfam in [1usize, 6, 12, 19] {
         for extra in [0usize, 3, 8] {
